@@ -264,12 +264,12 @@ def compiled_binding(chk, tier, seed):
         if k % 4 == 1:
             # an injected requires port declared FIRST, of another interface than the port that follows it: injected
             # ports are not exposed, the ports after it must keep their own interface types
-            itfs = [d for d in decls if d['kind'] == 'interface']
+            from . import model as _model  # pylint: disable=import-outside-toplevel
             comp = decls[-1]
-            first = comp['ports'][0]
-            other = next((i for i in itfs if i['fqn'][-1:] != first['type'][-1:] and i['fqn'] != ['A', 'B', 'A', first['type'][-1]]), None)
-            if other is not None:
-                comp['ports'].insert(0, {'name': 'inj0', 'type': list(other['fqn']), 'dir': 'requires', 'inj': True})
+            decls.insert(len(decls) - 1, _model.new_decl('interface', ['InjNs', 'IInj'], events=[
+                {'name': 'Poke', 'dir': 'in', 'reply': ['void'], 'formals': []},
+                {'name': 'Poked', 'dir': 'out', 'reply': ['void'], 'formals': []}]))
+            comp['ports'].insert(0, {'name': 'inj0', 'type': ['InjNs', 'IInj'], 'dir': 'requires', 'inj': True})
         prog = cxx.Program(decls, cfg)
         try:
             if prog.generate():
